@@ -23,11 +23,11 @@ CHECKS = {
    note="Pre-emption granularity = the library's own syscalls (the property's quantifier); races inside one openat2 call are not controllable this way; descriptor-local syscalls are not placement points (they commute with tree mutations).",
    technique="property-based testing with a deterministic attacker scheduled at syscall boundaries (seccomp user-notification gate), exhaustive placement enumeration per case"),
  "C03": dict(level="exploration", ref="DESIGN.md §3 C03",
-   text="Generated tree x one mutating operation (all kinds, escaping/'..'-final/absolute argument paths) x backend, alone and under the syscall-boundary attacker (all placements of one mutation, or sampled multi-mutation schedules); frame condition over the whole sandbox: nothing that was never inside the root is removed, replaced, modified or gains an entry, and returned descriptors lie below ever-inside directories.",
+   text="Generated tree x one mutating operation (all kinds, escaping/'..'-final/absolute argument paths) x backend, alone and under the syscall-boundary attacker (all placements of one mutation, or sampled multi-mutation schedules), plus two directed attacked drivers (paths climbing through '..' before naming what is created, with/without NO_SYMLINKS; recursive remove_all of wide/deep directories); frame condition over the whole sandbox: nothing that was never inside the root is removed, replaced, modified or gains an entry, and returned descriptors lie below ever-inside directories.",
    note="nlink and time stamps not compared; attacker's own objects are excluded by name; pre-emption granularity = library syscalls.",
    technique="property-based testing with whole-sandbox snapshot frame condition and syscall-boundary attacker (seccomp gate)"),
  "C10": dict(level="fault_enumeration", ref="DESIGN.md §3 C10",
-   text="For each generated scenario (tree x one library call x kernel configuration x cold/warm start) the call's syscall trace is recorded and then EVERY (syscall index x applicable errno) single fault plus sticky EAGAIN-on-openat2 and EMFILE/ENFILE-on-fd-creation sequences from every index are injected by a seccomp supervisor, one fresh run each. Oracle: returns within a syscall bound, no panic/abort, outside untouched, descriptor table intact, and success only with the un-faulted result. Exhaustive per scenario, sampled over scenarios.",
+   text="For each generated scenario (tree x one library call x kernel configuration x cold/warm start) the call's syscall trace is recorded and then EVERY (syscall index x applicable errno) single fault plus sticky EAGAIN-on-openat2, EAGAIN bursts of exactly one retry loop (16) and EMFILE/ENFILE-on-fd-creation sequences from every index are injected by a seccomp supervisor, one fresh run each. Oracle: returns within a syscall bound, no panic/abort, outside untouched, descriptor table intact, and success only with the un-faulted result. Exhaustive per scenario, sampled over scenarios.",
    note="Faults are injected at the syscall boundary of the library thread; close/dup are not failed; interpreted errnos (ENOENT, EEXIST, ENOTDIR, ELOOP, EXDEV) are not faults.",
    technique="exhaustive single-fault and sticky-fault injection at syscall boundaries (seccomp gate) over proptest-generated scenarios"),
  "C12": dict(level="exploration", ref="DESIGN.md §3 C12",
@@ -51,7 +51,7 @@ CHECKS = {
    note="Identity oracles only for try_from_fd handles (same procfs instance as the harness's descriptor); thread-id dependent names are normalised for the cross-resolver comparison.",
    technique="property-based testing over live procfs enumeration with differential oracles (pristine walk, two resolvers)"),
  "C09": dict(level="exploration", ref="DESIGN.md §3 C09",
-   text="Handle of every inode type placed at chosen descriptor numbers (0 included), from a thread that shares the descriptor table or has its own (decoy at the same number in the leader), reopened with generated flags after a generated history of renames/replacements/unlinks, on normal and over-mounted host /proc, as root and as an unprivileged user, under five kernel configurations, via Rust and C API; result must be the handle's inode with the kernel's own flags/errno (reference: the kernel's open of the same inode through a pristine fd link), ELOOP for links, refusal of creation flags, errors only from visible over-mounts.",
+   text="Handle of every inode type placed at chosen descriptor numbers (0 included), from a thread that shares the descriptor table or has its own (decoy at the same number in the leader), or from pid 1 of a nested pid namespace whose procfs handle was made by the outer namespace's pid 1, reopened with generated flags after a generated history of renames/replacements/unlinks, on normal and over-mounted host /proc, as root and as an unprivileged user, under five kernel configurations, via Rust and C API; result must be the handle's inode with the kernel's own flags/errno (reference: the kernel's open of the same inode through a pristine fd link), ELOOP for links, refusal of creation flags, errors only from visible over-mounts.",
    note="The handle descriptor is made by the harness and wrapped with Handle::from_fd; visibility of over-mounts is derived from the caller's ability to create a private procfs and the kernel configuration.",
    technique="property-based testing with history generation and a kernel reference open"),
  "C08": dict(level="exploration", ref="DESIGN.md §3 C08",
@@ -59,7 +59,7 @@ CHECKS = {
    note="Needs CAP_SYS_ADMIN/CAP_SETUID; handle creations are counted by the first mount-API stage the kernel configuration offers (fsopen, open_tree, open of /proc).",
    technique="exhaustive enumeration of a finite configuration product with resource counters from a seccomp observer"),
  "C15": dict(level="exploration", ref="DESIGN.md §3 C15",
-   text="All 2520 combinations of sysctl value, directory mode/owner, link owner, caller (incl. real != effective uid) and link position are enumerated with the real fs.protected_symlinks set; the emulated backend and the openat2 backend are compared with the kernel's own openat2(RESOLVE_IN_ROOT) issued as the same user on the same tree.",
+   text="All 7920 combinations of sysctl value, directory mode/owner, link owner, caller (incl. real != effective uid), link position / spelling (11, incl. no-follow lookups with trailing slashes) and {fresh process, process that already did the lookup under another effective uid} are enumerated with the real fs.protected_symlinks set; the emulated backend and the openat2 backend are compared with the kernel's own openat2(RESOLVE_IN_ROOT) issued as the same user on the same tree.",
    note="Temporarily changes the system-wide sysctl (lock file, restored by guard / signal handler / next run); finite space, enumerated completely.",
    technique="exhaustive differential testing against the kernel over a finite parameter product"),
  "C16": dict(level="exploration", ref="DESIGN.md §3 C16",
